@@ -392,7 +392,7 @@ def wiring(run):
     d = z3.BitVec('go_depth', 8)
     lim = (Enum(z3.If(d_some, z3.BitVecVal(1, 64), z3.BitVecVal(0, 64)), {1: (d,), 0: ()}),) + tuple([NONE] * 7)
     st = State()
-    up = ex.alloc(st, UL.uci_value('none'))
+    up = ex.alloc(st, UL.uci_value('none', run, ex, st))
     callee = [n for n, it in run.prog.items.items() if it.kind == 'fn' and n.startswith('uci::<impl') and n.endswith('::go')][0]
     r = ex.call(callee, [up, lim], ['&mut uci::Uci', 'search::limits::SearchLimits'], '()', st, 'harness')
     run.absorb(ex)
@@ -436,6 +436,10 @@ def check(run, replay=None):
     run.build()
     if not B.check_layout(run.prog):
         run.inconclusive.append('data layout differs')
+        return
+    lm = B.layout_mismatch(run.prog, B.SEARCH_LAYOUT)
+    if lm:
+        run.inconclusive.append('data layout differs from what the harness encodes: %s' % ', '.join(lm))
         return
     run.extra['explanation'] = __doc__
     N = 2 if run.tier == 'quick' else 3
